@@ -337,6 +337,45 @@ def main():
         except Exception as ex:
             npred += 1; failures["rrtconnect-script"] += 1
             if first_pred is None: first_pred = (cl, "geometric::RRTConnect (scripted): no observation (%s) %s" % (ex, a[:80]))
+    # (e) geometric::LazyRRT as a whole against LazyRrtModel.lazy_solve: the tree after lazy validation and subtree removal (states,
+    #     parents, validated flags), the reported path
+    llines = []
+    for i in range(400 if quick else 12000):
+        grid = rng.random() < 0.35
+        walls = [(coord(grid), lo, lo + rng.choice([0.25, 0.5, 1.0, 3.0])) for _ in range(rng.choice([0, 1, 1, 2, 3])) for lo in [coord(grid)]]
+        starts = [(coord(grid), coord(grid)) for _ in range(rng.choice([1, 1, 2, 3]))]
+        g = (coord(grid), coord(grid)); pts = [(coord(grid), coord(grid)) for _ in range(rng.choice([0, 1, 3, 8, 20, 60]))]
+        if pts and rng.random() < 0.3: pts[rng.randrange(len(pts))] = g
+        llines.append("LRRT %g %g %g %d %d W %d %s S %d %s G %r %r P %d %s" % (rng.choice([0.1, 0.3, 0.5, 1.0, 10.0]), rng.choice([0.0, 0.05, 0.25, 0.5, 1.0]), rng.choice([0.05, 0.2, 0.5]),
+                      rng.choice([0, 1, 5, 20, 80]), rng.randint(0, 10 ** 6), len(walls), " ".join("%r %r %r" % w for w in walls), len(starts), " ".join("%r %r" % q for q in starts), g[0], g[1], len(pts), " ".join("%r %r" % q for q in pts)))
+    rcl, ocl, ecl, scl = vf.sh([rdrv], input="\n".join(llines) + "\n", timeout=900); c.step("correspond:impl-lazyrrt", rdrv, scl, rcl == 0)
+    rcn, ocn, ecn, scn = vf.sh([model, "rrt"], input="\n".join(llines) + "\n", timeout=900); c.step("correspond:model-lazyrrt", model + " rrt", scn, rcn == 0)
+    ill, mll = [l for l in ocl.split("\n") if l.startswith("lrrt")], [l for l in ocn.split("\n") if l.startswith("lrrt")]
+    nlz_bad = 0; lz_stats = collections.Counter()
+    for k, ll in enumerate(llines):
+        a = ill[k].strip() if k < len(ill) else "<no output>"; b = mll[k].strip() if k < len(mll) else "<no output>"
+        if a != b:
+            nlz_bad += 1; ndiff += 1
+            if first_diff is None or len(ll) < len(first_diff[0]): first_diff = (ll, "geometric::LazyRRT: implementation '%s' LazyRrtModel '%s'" % (a[:300], b[:300]))
+        try:    # the reported path: from a start state, no motion touches a wall, ends strictly inside the goal threshold
+            w = ll.split(); nw = int(w[7]); walls = [(float(w[8 + 3 * j]), float(w[9 + 3 * j]), float(w[10 + 3 * j])) for j in range(nw)]
+            o = 8 + 3 * nw; ns = int(w[o + 1]); starts = [(float(w[o + 2 + 2 * j]), float(w[o + 3 + 2 * j])) for j in range(ns)]
+            o = o + 2 + 2 * ns; goal = (float(w[o + 1]), float(w[o + 2])); thr = float(w[3])
+            parts = [x.strip() for x in a.split("|")]; rep = parts[1].split()
+            lz_stats["solved" if rep[0] == "1" else "none"] += 1
+            if rep[0] == "1":
+                path = [(fl(t.split()[0]), fl(t.split()[1])) for t in parts[2].split(";") if t.strip()]
+                bad = None
+                if not path or path[0] not in starts: bad = "the reported path does not begin at a start state"
+                elif any(touches(kk, u, v) for u, v in zip(path, path[1:]) for kk in walls): bad = "the reported path contains a motion that touches a wall (lazy validation skipped it)"
+                elif not (math.dist(path[-1], goal) < thr): bad = "the solution ends %r from the goal (threshold %r)" % (math.dist(path[-1], goal), thr)
+                if bad:
+                    npred += 1; failures["lazyrrt-script"] += 1
+                    if first_pred is None: first_pred = (ll, "geometric::LazyRRT (scripted): " + bad)
+        except Exception as ex:
+            npred += 1; failures["lazyrrt-script"] += 1
+            if first_pred is None: first_pred = (ll, "geometric::LazyRRT (scripted): no observation (%s) %s" % (ex, a[:80]))
+    c.cov.update({"lazyrrt_scripts": len(llines), "lazyrrt_disagreements": nlz_bad, "lazyrrt_reports": dict(lz_stats)})
     c.cov.update({"rrtconnect_scripts": len(clines), "rrtconnect_disagreements": nrc_bad, "rrtconnect_reports": dict(rc_stats)})
     c.cov["samples"] = jobs[:3]
     c.cov["trusted_base"] += ["harness/rrt_driver.cpp (scripted sampler, wall motion validator, reaches RRT::nn_ by re-declaring protected as public for that header) + extract/rrt_driver.ml (the same binary64 formulas for distance, steering, wall test, goal)",
@@ -352,7 +391,7 @@ def main():
         c.violation("implementation violates C01: %s on '%s'" % (msg, j), "# C01 replay: bin/check C01 --replay <this file>  (or: build/harness/planner_driver <the line>)\n%s\n" % j)
     elif first_diff:
         j, msg = first_diff
-        c.broken.append("correspondence C01 (planner reports vs LedgerModel.adjudicate; EIT* edge validation vs EitModel; geometric::RRT / RRTConnect vs RrtModel / RrtConnectModel): %s on '%s'" % (msg, j))
+        c.broken.append("correspondence C01 (planner reports vs LedgerModel.adjudicate; EIT* edge validation vs EitModel; geometric::RRT / RRTConnect / LazyRRT vs RrtModel / RrtConnectModel / LazyRrtModel): %s on '%s'" % (msg, j))
     c.finish()
 
 
